@@ -136,6 +136,8 @@ def _run_cvc5(ob, tmpdir):
 
 def solve_one(ob, tmpdir):
     """run one obligation in a child process; hard-kill after timeout + margin"""
+    if ob.get("force_status"):
+        return {"status": ob["force_status"], "model": {}, "time": 0.0, "reason": "front end reported an inconclusive verdict"}
     if ob.get("trivial"):
         return {"status": ob["expect"], "model": {}, "time": 0.0, "reason": "goal normalised to false syntactically"}
     if ob.get("solver") == "cvc5":
